@@ -351,8 +351,10 @@ static cfg_opt_t *cfg_getopt_secidx(cfg_t *cfg, const char *name,
 	if (!index) {
 		opt = cfg_getopt_leaf(sec, name);
 
-		/* an unknown key is nothing unusual in a free-form section */
-		if (!opt && !is_set(CFGF_IGNORE_UNKNOWN, cfg->flags) && !is_set(CFGF_KEYSTRVAL, sec->flags))
+		/* an unknown key is nothing unusual when a free-form section is
+		 * asked itself (the parser then adds the key); addressed by path
+		 * from outside it is an unknown option like any other */
+		if (!opt && !is_set(CFGF_IGNORE_UNKNOWN, cfg->flags) && !(is_set(CFGF_KEYSTRVAL, sec->flags) && sec == cfg))
 			cfg_error(cfg, _("no such option '%s'"), name);
 	}
 
